@@ -43,7 +43,7 @@ def strategy_warmup():
         k = draw(st.integers(1, 3))
         kind = draw(st.sampled_from(["sgd", "adagrad", "rmsprop", "adam", "adamw"]))
         mom = draw(st.sampled_from([0.0, 0.0, 0.5, 0.9])) if kind in ("sgd", "rmsprop") else 0.0
-        T = draw(st.integers(1, 10))
+        T = draw(st.one_of(st.integers(1, 10), st.integers(1, 10), st.integers(11, 60)))
         n_masks = T
         pattern = draw(st.sampled_from(["all", "all", "all_or_nothing", "free"]))
         if kind in ("adam", "adamw") and pattern == "free":
